@@ -28,7 +28,7 @@ INVARIANTS = ["SigWellFormed", "StillAccepted", "BindPreserved", "ExplicitPassed
 def constants(kinds, max_changers, max_params=3, ko="NoKo"):
     return {"MaxParams": max_params, "MaxArgs": 3, "Kinds": tlc.Sub(kinds), "Stars": True, "KoSet": tlc.Sub(ko),
             "MaxChangers": max_changers, "Task": "sig", "MaxSites": 1,
-            "Uses": tlc.Sub("PlainOnly"), "Cxs": tlc.Sub("NoCx")}
+            "Uses": tlc.Sub("PlainOnly"), "Cxs": tlc.Sub("NoCx"), "Hosts": tlc.Sub("NoHost"), "Dups": tlc.Sub("NoDup")}
 
 
 def canon(beh):
